@@ -328,6 +328,25 @@ CHECKS['C18'] = dict(
     assumptions=['ASCII names only'],
 )
 
+CHECKS['C19'] = dict(
+    pkg='c19', level='exploration',
+    technique='property-based testing over real TLS on 127.0.0.1: rapid-generated (RPC method from the service descriptors, caller credential: transport x issuer x validity x EKU x CN x SAN) against a daemon assembled with grpcapi.New; oracle nothing of value / no state change for callers without a configured-CA certificate, decisions by the verified subject CN for served callers',
+    level_text=('A daemon built exactly like testing/daemon (same constructors, grpcapi.New with server certificate and CA) with harness-minted ECDSA certificates listens on 127.0.0.1. Each call uses a fresh '
+                'connection with a generated credential - plaintext, TLS without client certificate, or a client certificate issued by the configured CA / another CA / itself, valid / expired / not yet '
+                'valid, clientAuth / serverAuth-only / no EKU, CN in {permitted clients, refused client, peer, unknown, empty} with an independent SAN - and invokes a method drawn from the descriptors of all '
+                'five registered services with a valid request body. Must-refuse callers (no certificate from the configured CA) may receive no signature, account list, generated key or share, and '
+                'slashing-protection records, lock states, wallet contents and the key-generation session table must be unchanged. Any caller that is served is held to the reference permission model '
+                'evaluated on the certificate subject CN (SAN must not matter); key-generation messages succeed only for a peer CN.'),
+    level_note='The TLS library is trusted; what is exercised is configuration (client-auth mode, CA pool) and identity extraction. Certificates are minted relative to the current time with +-1 h / +-24 h windows.',
+    parts=[part('TestC19', 500, 5000, qshards=2)],
+    rule=('a case is 1-4 calls on fresh connections; non-trivial iff it contains a must-refuse call bearing a permitted or peer name, or a served call whose CN and SAN differ; distinct = sha256 of the case JSON'),
+    essential=['calls-that-must-be-refused', 'must-refuse-calls-bearing-a-permitted-name', 'accepted-credential-served', 'served-calls-with-cn-and-san-differing',
+               'cred:plaintext/ca', 'cred:tls-no-cert/ca', 'cred:tls-cert/other-ca', 'cred:tls-cert/self-signed', 'cred:tls-cert/ca'] +
+              ['method:' + m for m in ['Signer/Sign', 'Signer/Multisign', 'Signer/SignBeaconAttestation', 'Signer/SignBeaconAttestations', 'Signer/SignBeaconProposal', 'Lister/ListAccounts',
+               'AccountManager/Unlock', 'AccountManager/Lock', 'AccountManager/Generate', 'WalletManager/Unlock', 'WalletManager/Lock', 'DKG/Prepare', 'DKG/Execute', 'DKG/Commit', 'DKG/Abort', 'DKG/Contribute']],
+    assumptions=['crypto/tls and grpc-go are trusted', 'one daemon per test process; calls are judged by before/after probes of its state'],
+)
+
 ENGINES = [
     dict(name='rapid-harness', path='/verif/harness', kind_free_text='Go test module (pgregory.net/rapid v1.3.0) compiled against /repo with -tags verif; driver /verif/check shards by seed, merges coverage, writes evidence',
          serves_properties=sorted(CHECKS)),
